@@ -21,6 +21,8 @@ type Ctx struct {
 	R    *report.Report
 	// LoadOther loads another build configuration / module on demand.
 	LoadOther func(dir, goos string, patterns ...string) (*ir.Universe, error)
+
+	descDepth int
 }
 
 // Property describes one registered property rule set.
